@@ -81,7 +81,8 @@ CLAIMED = {
         'Donnell quadratic terms (known finding); hand model of the pad/reshape/map/ravel/trim chunking with the theorem '
         'chunkedMap f = map f for every point list and every core count >= 1. Ties: V (summed increments vs running fuvw), driver '
         'for the chunking model, exact series/Donnell oracle vs Panel.uvw/strain/stress incl. 1..16 threads and assembly slices. '
-        'One defect repaired (Panel.stress ignored NLterms), one recorded (non-linear strain terms). Panel.stress: hand model (Model/Chunking.lean) with stress_eq_F_strain (resultants = laminate matrix x the strains of the SAME NLterms option), stress_nlterms_forwarded, stress_requires_laminate, stress_linear_eq_F_donnell on the regenerated strain kernel.',
+        'One defect repaired (Panel.stress ignored NLterms), one recorded (non-linear strain terms). Panel.stress: hand model (Model/Chunking.lean) with stress_eq_F_strain (resultants = laminate matrix x the strains of the SAME NLterms option), stress_nlterms_forwarded, stress_requires_laminate, stress_linear_eq_F_donnell on the regenerated strain kernel. '
+        'Python glue of Panel.uvw/strain/stress and PanelAssembly.uvw/strain/stress (points from xs, ys or gridx, gridy; group filter, c[col_start:col_end], running sums of __init__; reshape, stored attributes, exceptions): hand model Model/FieldGlue.lean with field_pointwise, points_sublist, points_permutation_equivariant, grid_is_meshgrid_of_linspace, assembly_slices_partition, assembly_group_uses_own_slice, assembly_strain_stress_forward_options, field_query_errors; tied by the recorded-call correspondence field_glue_correspondence (driver ops pfield / afield / ainit, line-coverage gate on the ten modelled functions).',
    note='As C02; the def-level wrappers of the two field modules (pad / reshape / prange / ravel / trim, argument plumbing) are additionally read from the '
         'source text and executed (tools/cyexec.py) against the binary on every run; OpenMP scheduling/races outside the model (bit-identical outputs across core counts required as supporting evidence); '
         'stress = F*strain checked numerically; conical panels rejected by fstrain.',
